@@ -146,12 +146,13 @@ CLAIMED = {
     ),
     "C16": dict(
         text="Theorems about a model of write_config on insertion-ordered dicts (defaults merge, overrides, d[k]=d.pop(k), read-compare-skip loop) for every default list, every current-value function, "
-        "every override dict and all accept/reject answers: at most one write per setting, grow-only defaults never written when the NCP reports ≥, overrides verbatim, nothing for disabled settings, "
-        "packet-buffer count last, trace independent of rejections; decide +kernel over the generated DEFAULT_CONFIG / schema keys of every version (buffer count last default, name↔id injective, capacity defaults are grow-only). "
+        "every validated config (user-supplied and schema-filled items told apart, as the code does) and all accept/reject answers: at most one write per setting; for a grow-only default whose key the user did not supply "
+        "- absent or filled in by the version's own schema - whatever is written is strictly above the value the NCP reports (nothing when it reports at least that); user-supplied values verbatim, nothing for disabled settings, "
+        "packet-buffer count last, trace independent of rejections; decide +kernel over the generated DEFAULT_CONFIG / schema keys / schema-filled defaults of every version (buffer count last default, name↔id injective, capacity defaults are grow-only, a schema-filled capacity setting replaces a grow-only default). "
         "Tie: generated tables + differential of the real EZSP.write_config (stubbed command layer, real voluptuous schema) against the model; oracle on the set commands the stub saw.",
         ref="6 C16",
         technique="Lean 4 proof (list/dict lemmas + decide over generated tables) + differential vs real write_config",
-        note="Overrides are modelled after schema validation (voluptuous is exercised by the differential, not modelled). ",
+        note="The config is modelled after schema validation (voluptuous is exercised by the differential, not modelled); which items the schema fills in by itself is a generated table. ",
     ),
     "C19": dict(
         text="Theorems for every outcome word and protocol version: the feed raises iff its outcome is a failure preceded by ≥ MAX_WATCHDOG_FAILURES consecutive failures (generated constant), success clears the count, "
